@@ -7,9 +7,9 @@ Open Scope Z_scope.
 
 Definition w_cfg : config :=
   mkCfg [Some 65; Some 95] [None; None] None (Some true) (Some 180) (Some false)
-        false false None None [Some 100; Some 100].
+        false false None None [Some 100; Some 100] no_score.
 Definition w_pod : pod :=
-  mkPod 1 1 0 9000 false false false [100; 0] [0; 0] [None; None] (-1) (-1) 0 zero_time 0 zero_time.
+  mkPod 1 1 0 (Some 9000) 0 0 0 0 false 0 1 [mkCtr [100; 0] [0; 0]] [] None [None; None] (-1) (-1) 0 zero_time 0 zero_time.
 Definition w_pm : list pmetric := [mkPM 1 (Some [10; 0]) true].
 Definition w_info : option minfo := Some (mkMI [50; 0] [0; 0] []).
 Definition w_m1 : metric := mkM (Some 1000) None w_info w_pm.   (* report with an update time *)
@@ -51,10 +51,10 @@ Qed.
 
 (* a history on which estimates, a should=false pod and Filter decisions all occur *)
 Definition w_pod2 : pod :=
-  mkPod 2 2 1 5000 false false false [40; 0] [0; 0] [None; None] (-1) (-1) 2 990 0 zero_time.
+  mkPod 2 2 1 (Some 5000) 0 0 0 0 false 0 3 [mkCtr [40; 0] [0; 0]] [] None [None; None] (-1) (-1) 2 990 0 zero_time.
 Definition w_node : nodeobj := mkNode 1 [200; 1000000000] None None.
 Definition w_in : pod :=
-  mkPod 9 9 0 9000 false false false [20; 0] [0; 0] [None; None] (-1) (-1) 0 zero_time 0 zero_time.
+  mkPod 9 9 0 (Some 9000) 0 0 0 0 false 0 1 [mkCtr [20; 0] [0; 0]] [] None [None; None] (-1) (-1) 0 zero_time 0 zero_time.
 Definition w_m3 : metric := mkM (Some (-10)) None w_info w_pm.
 Definition w_ops2 : list op :=
   [OReserve 0 1 w_pod; OMetric 0 1 w_m3; OAdd (-5) w_pod2; OFilter 0 w_node w_in;
